@@ -552,6 +552,14 @@ STANDARD_CONVERSIONS = {
 }
 
 
+# functions that are not the identity on the results of the standard conversion, each with a literal that shows it
+LOSSY_WRAPPERS = {
+    "Float": {"builtins.int": "1.5", "builtins.round": "1.5", "math.floor": "1.5", "math.ceil": "1.5", "math.trunc": "1.5", "builtins.str": "1.5",
+              "builtins.bool": "1.5"},
+    "Integer": {"builtins.str": "2", "builtins.bool": "2", "builtins.float": "9007199254740993"},
+}
+
+
 def _standard_conversions(ctx: Ctx, env):
     """R6: the Python value of a number, string, date, time, date-time or GUID literal is the standard-library / dateutil
     conversion of the literal's text (trusted to implement the calendar and numeric meaning). Anything else is hand-written
@@ -573,6 +581,12 @@ def _standard_conversions(ctx: Ctx, env):
             n += 1
             got = repr(p.value)
             if got not in accepted:
+                # the standard conversion wrapped in a function that is not the identity on its results: decided, with a witness
+                lossy = next(((f, w) for f, w in LOSSY_WRAPPERS.get(kind, {}).items() for a in accepted if got == f"call(<{f}>,[{a}],[])"), None)
+                if lossy is not None:
+                    ctx.fail("R6.value-is-the-standard-conversion", kind, f"ast.{kind}.py_val applies {lossy[0].split('.')[-1]}() to the standard "
+                             f"conversion of the literal's text: the value of `{lossy[1]}` is no longer the number written", ci.module.loc(fn), f"x eq {lossy[1]}")
+                    continue
                 raise AnalysisError(f"ast.{kind}.py_val computes `{got[:160]}` instead of the standard conversion of the literal's text "
                                     f"({accepted[0]}): whether hand-written conversion agrees with the numeric/calendar meaning is a property of "
                                     "run-time values that this analysis cannot decide", ci.module.loc(fn))
